@@ -25,8 +25,9 @@ class _MmapShim:
 
 
 class _HookLock:
-    def __init__(self, owner):
-        self._l = threading.Lock()
+    def __init__(self, owner, real):
+        # wraps the lock the heap made for itself: what a re-entrant acquire does is the code's choice
+        self._l = real
         self.owner = owner
 
     def acquire(self, blocking=True, timeout=-1):
@@ -46,7 +47,13 @@ class _HookLock:
         self.release()
 
     def locked(self):
-        return self._l.locked()
+        try:
+            return self._l.locked()
+        except AttributeError:        # an RLock has no locked() before 3.14
+            if self._l.acquire(False):
+                self._l.release()
+                return False
+            return True
 
 
 class _HookSet(set):
@@ -70,7 +77,7 @@ class HeapAdapter:
         bh.mmap = _MmapShim(c['Page'])
         self.h = bh.Heap(size=c['InitSize'])
         self.h._alignment = c['Align']
-        self.h._lock = _HookLock(self)
+        self.h._lock = _HookLock(self, self.h._lock)
         hs = _HookSet()
         hs.owner = self
         self.h._allocated_blocks = hs
